@@ -50,6 +50,8 @@ def followup(stage, lines, model, checked, release, tier, rng):
                     m2 = R(16)
                     L.append("@model forge %s z-over-min %s %s %d" % (s, sk, K.hx(m2), n))
                 L.append(K.sign_raw(s, msg, sk, 0))
+            # an honest signature with a hint row (>= 2 entries) that ends at position 255 (searched on the implementation)
+            L.append("@impl scan::findsig255 %s %s %d" % (s, sk, 400))
         return L
     if stage == 2:
         for ln, m, c in zip(lines, model, checked):
@@ -62,6 +64,22 @@ def followup(stage, lines, model, checked, release, tier, rng):
                 v = K.verify_raw(s, sig, msg, pk)
                 _st["cases"].append((v, not kind.startswith("z-over"), kind + " zmax=" + m.split()[2]))
                 L.append(v)
+            elif ln.startswith("@impl scan::findsig255 ") and c.startswith("ok ") and c != "ok none":
+                s = ln.split()[2]
+                pk, sk, _m0 = _st["keys"][s]
+                p = S.P(s)
+                tt = c.split()
+                msg2 = K.unhx(tt[1]); sig = bytearray(bytes.fromhex(tt[2])); row = int(tt[3])
+                hoff = p.sig - p.omega - p.k
+                end = sig[hoff + p.omega + row]
+                def emit2(w, what, expect=False):
+                    v = K.verify_raw(s, bytes(w).hex(), msg2, pk)
+                    _st["cases"].append((v, expect, what)); L.append(v)
+                w = bytearray(sig); w[hoff + end - 1], w[hoff + end - 2] = w[hoff + end - 2], w[hoff + end - 1]
+                emit2(w, "hint-reorder-after-255")       # same hint set, positions .., 255, x: not increasing
+                w = bytearray(sig); w[hoff + end - 2] = 255
+                emit2(w, "hint-repeat-255")
+                emit2(bytearray(sig), "valid-row-ending-255", True)
             elif "::signature " in ln and c.startswith("ok "):
                 s = ln.split("::")[1]
                 pk, sk, msg = _st["keys"][s]
@@ -83,6 +101,10 @@ def followup(stage, lines, model, checked, release, tier, rng):
                         w = bytearray(sig); w[hoff + start + 1] = w[hoff + start]
                         emit(w, "hint-repeat")
                         done = True
+                    if cnt[i] - start >= 2 and cnt[i] <= p.omega:
+                        e = cnt[i]
+                        w = bytearray(sig); w[hoff + e - 1], w[hoff + e - 2] = w[hoff + e - 2], w[hoff + e - 1]
+                        emit(w, "hint-reorder-last-two-row%d" % i)
                     start = cnt[i]
                 # a polynomial whose first hint is at position 0: repeat that 0 (shift the rest up, bump the counters): decodes to the
                 # same hint vector, so the challenge hash still matches; the encoding is not canonical
